@@ -365,6 +365,15 @@ var c08Bindings = []struct{ prog, want string }{
 	{"BEGIN { for (i in [1, 2, 3]) { match (i) { v => { cnt = cnt + 1; print cnt } } } }", "1\n1\n1\n"},
 	{"BEGIN { total = 100; match (1) { v => { total = total + v } } print total; match (2) { w => { fresh = w } } fresh = 'global'; match (3) { u => { fresh = fresh + u } } print fresh }", "101\nglobal3\n"},
 	{"BEGIN { match (1) { v => { for (e in [7, 8]) { last = e } print last } } match (2) { v => { print last is unknown, e is unknown } } }", "8\ntrue true\n"},
+	// a parameter (or a name bound by a pattern) hides a global of the same name everywhere in the function, also inside match bodies
+	{"function bump(n) { return match (1) { one => n + 10 } } BEGIN { n = 5; print bump(1), n }", "11 5\n"},
+	{"function scale(k, v) { return match (v) { [a, b] => k * a + k * b } } BEGIN { k = 100; print scale(2, [3, 4]), k }", "14 100\n"},
+	{"function setk(k) { match (1) { one => { k = k + 1 } } return k } BEGIN { k = 100; print setk(1), k }", "2 100\n"},
+	{"function outer(v) { return match (v) { [k, rest] => match (rest) { [x] => k + x } } } BEGIN { k = 100; x = 50; print outer([1, [2]]), k, x }", "3 100 50\n"},
+	// a pattern that binds a name and then fails leaves nothing behind for the alternatives and cases after it
+	{"function label(kind, v) { return match (v) { [kind, 0] => 'flat', [a, b] => kind + ' ' + a + 'x' + b } } BEGIN { print label('shape', [3, 4]), label('shape', [3, 0]) }", "shape 3x4 flat\n"},
+	{"BEGIN { total = 100; print match ([7, 8]) { [total, 9] => 'nine', [a, b] => total + a + b }, total }", "115 100\n"},
+	{"BEGIN { w = 'outer'; print match ([1, 2, 3]) { [w, 2, 4], [w, 5, 3] => 'no', [p, q, r] => w + p } }", "outer1\n"},
 	// parameters the caller left out are separate nulls
 	{"function f(a, b, c) { b = 5; return [a, b, c] } BEGIN { print f(1), f() }", "[1, 5, null] [null, 5, null]\n"},
 	{"function g(a, b, c, d) { c++; d = d + 'x'; return [b, c, d] } BEGIN { print g(), g(1) }", "[null, 1, \"x\"] [null, 1, \"x\"]\n"},
@@ -516,7 +525,7 @@ func c08Run(c *Case) {
 func init() {
 	register(&Prop{
 		ID: "C08", Level: "exploration",
-		Rule:          "sampled: programs with 1-4 generated functions (arity 0-4, called with too few / exact / too many arguments in every expression position, parameter reassignment, callee locals, global updates, container parameters with element stores, returns from loops and match blocks, nested calls) plus a recursion library (fact, fib, mutual even/odd, ackermann, sumto up to depth 900); after every call the caller prints its own state and probes every callee name with `is unknown`; trace vs reference model, plus the frame automaton M4 (depth at each rule start equals the baseline). Enumerated: 8 long-history programs over 10000 elements (thorough: up to 50000) whose result is compared with the model, and 5 runaway-recursion shapes whose refusal depth must be identical after 0/1/10/5000 completed calls and after one completed recursion 900 deep. 35 programs (results computed by hand) in which argument names coincide with the callee's parameter names in another order (swap, rotate, through match bindings, globals, document fields) or match bindings are read after a recursive call through the same match returned (sums, tree walks, mutual recursion, nested matches), two calls of one function separated by more than 65536 other frames, names created inside a case body (gone when the case ends), several omitted parameters (separate nulls). Non-trivial = >= 3 calls and an arity mismatch or recursion; long runs and probes count as non-trivial.",
+		Rule:          "sampled: programs with 1-4 generated functions (arity 0-4, called with too few / exact / too many arguments in every expression position, parameter reassignment, callee locals, global updates, container parameters with element stores, returns from loops and match blocks, nested calls) plus a recursion library (fact, fib, mutual even/odd, ackermann, sumto up to depth 900); after every call the caller prints its own state and probes every callee name with `is unknown`; trace vs reference model, plus the frame automaton M4 (depth at each rule start equals the baseline). Enumerated: 8 long-history programs over 10000 elements (thorough: up to 50000) whose result is compared with the model, and 5 runaway-recursion shapes whose refusal depth must be identical after 0/1/10/5000 completed calls and after one completed recursion 900 deep. 42 programs (results computed by hand) in which argument names coincide with the callee's parameter names in another order (swap, rotate, through match bindings, globals, document fields) or match bindings are read after a recursive call through the same match returned (sums, tree walks, mutual recursion, nested matches), two calls of one function separated by more than 65536 other frames, names created inside a case body (gone when the case ends), several omitted parameters (separate nulls). Non-trivial = >= 3 calls and an arity mismatch or recursion; long runs and probes count as non-trivial.",
 		NumCases:      c08Cases,
 		Run:           c08Run,
 		MinConclusive: func(tier string) int { return 3000 },
